@@ -2,8 +2,7 @@ import OntVerif.Model.ConnCtl
 import OntVerif.Util.Hex
 /-! Line driver for C36: runs one schedule `S:<maxIn>:<maxIp>:<maxOut>:<rsv> op;op;…` on the connection-controller
 model, one `macroStep` per op (a thread runs to its next I/O point, as the harness forces the real goroutines to),
-and prints the controller's observables after every op.  The two variants differ only in what a repeated `Close()` of
-a stale `Conn` does; `asShipped ## sound` is printed when that makes a difference. -/
+and prints the controller's observables after every op. -/
 namespace OntVerif.Driver.C36
 open OntVerif.Util OntVerif.Model.ConnCtl
 
@@ -67,21 +66,19 @@ def showState (ips : List Nat) (r : Res) (s : State) : String :=
 
 def indexOf (ds : List String) (d : String) : Nat := (ds.takeWhile (· != d)).length
 
-def runOps (v : Variant) (ips : List Nat) (ds : List String) : State → List String → List String → List String
+def runOps (ips : List Nat) (ds : List String) : State → List String → List String → List String
   | _, [], acc => acc.reverse
   | s, o :: rest, acc =>
-    let (s', r) := macroStep v s (indexOf ds o)
-    runOps v ips ds s' rest (showState ips r s' :: acc)
+    let (s', r) := macroStep s (indexOf ds o)
+    runOps ips ds s' rest (showState ips r s' :: acc)
 
-def runLine (v : Variant) (cfg : Cfg) (ops : List String) : Option String :=
+def runLine (cfg : Cfg) (ops : List String) : Option String :=
   let ds := ops.eraseDups
   match ds.mapM parseThread with
   | none => none
   | some ths =>
     let ips := ((ths.map (·.ip)).mergeSort (· ≤ ·)).eraseDups
-    some (String.intercalate " | " (runOps v ips ds (init cfg ths) ops []))
-
-def either (a b : String) : String := if a == b then a else a ++ " ## " ++ b
+    some (String.intercalate " | " (runOps ips ds (init cfg ths) ops []))
 
 def handle (line : String) : String :=
   match line.splitOn " " with
@@ -92,9 +89,9 @@ def handle (line : String) : String :=
     | some cfg =>
       if rest.isEmpty then "-" else
       let ops := rest.splitOn ";"
-      match runLine .asShipped cfg ops, runLine .sound cfg ops with
-      | some a, some b => either a b
-      | _, _ => "bad-op"
+      match runLine cfg ops with
+      | some a => a
+      | none => "bad-op"
   | _ => "bad-op"
 
 end OntVerif.Driver.C36
